@@ -51,6 +51,25 @@ def gen_scenario(seed, family="mixed"):
             u0.append(["shutdown", True, False])
         return {"kind": "plain", "max_workers": mw, "timeout": rnd.choice([None, 5]), "tasks": [{"body": "ok"}] * nt,
                 "family": family, "users": [u0], "sched": {"p_timeout": 0.1, "p_crash": 0.0, "max_crashes": 0}}
+    if family == "callback":
+        # done-callbacks that submit more work from whatever thread resolves the future (manager, feeder, canceller)
+        mw = rnd.choice([1, 2])
+        n = rnd.randint(1, 4)
+        tasks = [gen_task(rnd, rnd.choice(["plain", "contain", "crash"])) for _ in range(n)]
+        extra = []
+        for k in range(n):
+            if rnd.random() < 0.6:
+                tasks[k] = dict(tasks[k], cb="submit", cb_task=n + len(extra))
+                extra.append({"body": rnd.choice(["ok", "ok", "raise"])})
+        tasks += extra
+        u0 = [["create"]] + [["submit", k] for k in range(n)]
+        if rnd.random() < 0.3:
+            u0.append(["cancel", rnd.randrange(n)])
+        r = rnd.random()
+        if r < 0.4:
+            u0.append(["shutdown", True, rnd.random() < 0.3])
+        return {"kind": "plain", "max_workers": mw, "timeout": rnd.choice([None, 5]), "tasks": tasks, "family": family,
+                "users": [u0], "sched": {"p_timeout": 0.1, "p_crash": rnd.choice([0.0, 0.01, 0.02]), "max_crashes": 1}}
     if family == "respawn":
         # work, a pause long enough for every worker to time out, then more work - possibly fatal to the new worker
         mw = rnd.choice([1, 1, 2])
